@@ -216,3 +216,20 @@ def many_moves_pda(rng, nt):
             T.append(m)
     F = rng.sample(Q, rng.randint(1, 2))
     return pd.make(Q, S, G, T, Q[0], F)
+
+
+def concatenation_ambiguous_stacks():
+    """PDAs (built directly) whose stack alphabet has a symbol that is the concatenation of others (ab = a + b, xx = x + x):
+    two different stacks spell the same string.  Both stacks are reachable in the same state on inputs of the same length
+    and only ONE of them leads to acceptance for a given continuation, so any configuration identity based on the joined
+    stack text loses an accepting computation (or finds a spurious one).  yields (class, RP)"""
+    for (s1, s2, cat) in (('a', 'b', 'ab'), ('x', 'x', 'xx'), ('ab', 'c', 'abc'), ('Z', '0', 'Z0')):
+        G = sorted({s1, s2, cat})
+        # epsilon route: push cat in one move / push s1 then s2 in two moves; the letter read next decides which stack is needed
+        T = [('q0', None, None, 'q1', cat), ('q0', None, None, 'm', s1), ('m', None, None, 'q1', s2),
+             ('q1', 'x', cat, 'f', None), ('q1', 'y', s2, 'r', None), ('r', None, s1, 'g', None)]
+        yield ('concatenation_ambiguous_stack_eps', pd.make(['q0', 'm', 'q1', 'f', 'r', 'g'], 'xy', G, T, 'q0', ['f', 'g']))
+        # letter route: 'u' pushes cat, 'v' then 'w' ... both routes read two letters before q1
+        T = [('q0', 'u', None, 'h', None), ('h', 'u', None, 'q1', cat), ('q0', 'v', None, 'm', s1), ('m', 'v', None, 'q1', s2),
+             ('q1', 'x', cat, 'f', None), ('q1', 'y', s2, 'r', None), ('r', None, s1, 'g', None), ('q1', 'x', s2, 'dead', None)]
+        yield ('concatenation_ambiguous_stack_letters', pd.make(['q0', 'h', 'm', 'q1', 'f', 'r', 'g', 'dead'], 'uvxy', G, T, 'q0', ['f', 'g']))
